@@ -259,11 +259,15 @@ Fixpoint trim_left_ws (s : bytes) : bytes :=
   | c :: r => if is_ws c then trim_left_ws r else s
   | [] => []
   end.
-(* strings.Trim(s, " \t") *)
-Definition trim_ws (s : bytes) : bytes := rev (trim_left_ws (rev (trim_left_ws s))).
+(* list reversal in linear time (the standard library's [rev] appends at every step; trailer lines and
+   values can be megabytes long); [rev_lin l = rev l], C13_Proofs.rev_lin_rev *)
+Definition rev_lin {A} (l : list A) : list A := rev_append l [].
 
-Definition ends_cr (s : bytes) : bool := match rev s with 13 :: _ => true | _ => false end.
-Definition strip_cr (s : bytes) : bytes := match rev s with 13 :: r => rev r | _ => s end.
+(* strings.Trim(s, " \t") *)
+Definition trim_ws (s : bytes) : bytes := rev_lin (trim_left_ws (rev_lin (trim_left_ws s))).
+
+Definition ends_cr (s : bytes) : bool := match rev_lin s with 13 :: _ => true | _ => false end.
+Definition strip_cr (s : bytes) : bytes := match rev_lin s with 13 :: r => rev_lin r | _ => s end.
 
 (* strings.SplitN(line, ":", 2) *)
 Fixpoint cut_colon (s : bytes) : option (bytes * bytes) :=
